@@ -10,7 +10,7 @@ import (
 
 // Field is a leaf or a group.
 type Field struct {
-	Rep      int      // 0 required, 1 optional, 2 repeated
+	Rep      int // 0 required, 1 optional, 2 repeated
 	Leaf     bool
 	Type     string   // leaf Go type (default int32)
 	Children []*Field // group
